@@ -170,7 +170,8 @@ Proof. repeat split; vm_compute; reflexivity. Qed.
      pu d u = (u - 1) mod d                                               the polygon edge cn u -> cn (u+1)
    Hypothesis turns_cw L v = true (a boolean predicate): w_u x w_{u+1 mod d} < 0 for all u < d, i.e. each outward
    vector at v is followed clockwise by the next after a turn of more than 0 and less than pi. *)
-From Koala Require Import Proofs.LatticeFacts Proofs.TruncateFacesGeom Proofs.TruncateFacesRot Proofs.TruncateFaces.
+From Koala Require Import Proofs.LatticeFacts Proofs.TruncateFacesGeom Proofs.TruncateFacesRot Proofs.TruncateFaces
+     Proofs.TruncateFacesWinding.
 
 (* (1a) no hypothesis on angles: L' is again well-formed and loop-free; the rotation-system row of corner u has
    exactly three entries: the shortened original edge e_u, the polygon edge to the next corner and the one from
@@ -257,20 +258,35 @@ Theorem C13_truncate_polygon_is_face : forall (L : lattice) (vs : option (list n
 Proof. exact truncate_polygon_is_face. Qed.
 Print Assumptions C13_truncate_polygon_is_face.
 
-(* PARTIAL: the code's orientation filter is "winding number = -1" (walk_valid).  Given that the exact winding
-   number of the polygon walk is -1 the polygon is an entry of find_all_plaquettes L' with d sides
-   (plaquettes_spec of C01).  MISSING: a proof that winding (map dvec (pwalk u0)) = -1 follows from turns_cw and
-   the sortedness of sorted_adj L v (the harness checks the census on the implementation). *)
-Theorem C13_truncate_polygon_is_plaquette_partial : forall (L : lattice) (vs : option (list nat)) (v : nat),
+(* (3b) the code's orientation filter is "winding number = -1" (walk_valid of Model/Lattice.v, the exact winding
+   number of the arctan2 construction of lattice.py): it is -1 on the polygon walk, for every starting corner, so
+   the walk passes all three coded filters.  Proof (Proofs/TruncateFacesWinding.v): the edge directions of a polygon
+   seen anticlockwise from v are deformed into the radial directions -w_u without changing the count of branch-cut
+   crossings; for the radial directions the count is the number of wraps of the sort key alpha along the sorted
+   row sorted_adj L v, which is one *)
+Theorem C13_truncate_polygon_walk_valid : forall (L : lattice) (vs : option (list nat)) (v u0 : nat),
+  wf_lattice L = true -> no_self_loops L = true -> (v < nV L)%nat -> is_truncated L vs v = true ->
+  turns_cw L v = true -> (u0 < length (sorted_adj L v))%nat ->
+  exists L', vertices_to_polygon L vs = Some L' /\
+    winding (map (dvec L') (pwalk L vs v u0)) = (-1)%Z /\ walk_valid L' (pwalk L vs v u0) = true.
+Proof. exact truncate_polygon_walk_valid. Qed.
+Print Assumptions C13_truncate_polygon_walk_valid.
+
+(* clause "the new polygon as an extra plaquette": hence (plaquettes_spec of C01) the plaquette list of the
+   truncated lattice contains the polygon around v: a plaquette with d sides whose edges are the d polygon edges
+   (all traversed backwards), whose vertices are the d corners, winding number -1, positive area *)
+Theorem C13_truncate_polygon_is_plaquette : forall (L : lattice) (vs : option (list nat)) (v : nat),
   wf_lattice L = true -> no_self_loops L = true -> (v < nV L)%nat -> is_truncated L vs v = true ->
   turns_cw L v = true ->
-  exists L', vertices_to_polygon L vs = Some L' /\
-    ((forall u0, (u0 < length (sorted_adj L v))%nat -> winding (map (dvec L') (pwalk L vs v u0)) = (-1)%Z) ->
-     exists ps, find_all_plaquettes L' = Some ps /\
-       exists u0, (u0 < length (sorted_adj L v))%nat /\ In (mk_plaquette L' (pwalk L vs v u0)) ps /\
-                  n_sides (mk_plaquette L' (pwalk L vs v u0)) = length (sorted_adj L v)).
-Proof. exact truncate_polygon_is_plaquette_partial. Qed.
-Print Assumptions C13_truncate_polygon_is_plaquette_partial.
+  exists L' ps, vertices_to_polygon L vs = Some L' /\ find_all_plaquettes L' = Some ps /\
+    exists u0, (u0 < length (sorted_adj L v))%nat /\
+      let p := mk_plaquette L' (pwalk L vs v u0) in
+      In p ps /\ n_sides p = length (sorted_adj L v) /\
+      p_edges p = walk_edges (pwalk L vs v u0) /\ p_verts p = walk_verts (pwalk L vs v u0) /\
+      p_dirs p = walk_dirs (pwalk L vs v u0) /\
+      p_winding p = (-1)%Z /\ (0 < p_area2 p)%Z.
+Proof. exact truncate_polygon_is_plaquette. Qed.
+Print Assumptions C13_truncate_polygon_is_plaquette.
 
 (* PARTIAL, clause "every old plaquette enlarged by one side per truncated corner", local form: a face walk of L
    that enters v along e_u leaves along e_{u+1}; in L' the same dart of e_u enters corner u, continues along the
@@ -297,8 +313,7 @@ Print Assumptions C13_truncate_corner_detour_partial.
 
 (* non-vacuity: on the 2x2 square torus every vertex is truncated and satisfies turns_cw; the polygon of vertex 0
    (edges 8..11, one of them with non-zero crossing on each side of the cell) is reported by find_all_plaquettes of
-   the truncated lattice as the walk pwalk 0, its winding number is -1 for every rotation (the hypothesis of the
-   partial theorem holds here), the old 4-gons have become 8-gons; the truncated lattice satisfies the hypotheses
+   the truncated lattice as the walk pwalk 0, its winding number is -1 for every rotation, the old 4-gons have become 8-gons; the truncated lattice satisfies the hypotheses
    again (truncation followed by truncation) *)
 Example C13_truncate_polygon_nonvacuous :
   forallb (fun v => is_truncated C13_square2 None v && turns_cw C13_square2 v) (seq 0 4) = true /\
